@@ -289,7 +289,8 @@ Arguments init {C}.
    A leaf's version is a counter; a container's version selects one of its configurations
    (children list, focus position).
    ===================================================================================== *)
-Inductive kind := KLeaf | KAttr | KPad (l r : Z) | KPile | KCols (widths : list Z).
+Inductive kind := KLeaf | KAttr | KPad (l r : Z) | KPile | KCols (widths : list Z)
+  | KSwitch (th : Z).   (* a spy container that shows only its first child when narrower than th *)
 Record node := Node {
   n_kind : kind;
   n_ignf : bool;                        (* class attribute ignore_focus *)
@@ -331,6 +332,7 @@ Section Instance.
     | KPad l r => match ch with x :: _ => [(x, mk_key x (maxcol - l - r) f)] | [] => [] end
     | KPile => pile_kids ch 0 fp maxcol f
     | KCols widths => cols_kids ch widths 0 fp f
+    | KSwitch th => pile_kids (if maxcol <? th then firstn 1 ch else ch) 0 fp maxcol f
     end.
   Definition is_cols (w : Z) : bool := match n_kind (node_of w) with KCols _ => true | _ => false end.
   Definition is_leaf (w : Z) : bool := match n_kind (node_of w) with KLeaf => true | _ => false end.
@@ -400,7 +402,7 @@ Definition dec_node (l : list Z) : option ((Z * node) * list Z) :=
       match dec_configs (Z.to_nat nc) r1 with
       | Some (cs, r2) =>
         let kd' := if kd =? 0 then KLeaf else if kd =? 1 then KAttr else if kd =? 2 then KPad a b
-                   else if kd =? 3 then KPile else KCols widths in
+                   else if kd =? 3 then KPile else if kd =? 4 then KCols widths else KSwitch a in
         Some ((id, Node kd' (negb (ignf =? 0)) (negb (ca =? 0)) cs), r2)
       | None => None
       end
